@@ -101,12 +101,12 @@ th!(c03_q_send_after_eof_timeout, 10, { send_step(false, false) });
 //# funcs=SendTransaction::send_pdu(Cancelled),handle_timeout,abandon,has_pdu_to_send,until_timeout; bound=cancelled sender after EOF(cancel) was sent; a timeout tick at +0..7 s; stubs=S1,S2,S3; nocover=ACK(EOF) received
 th!(c03_q_send_after_cancel_eof_timeout, 10, { send_step(true, false) });
 //# funcs=SendTransaction::process_pdu(Ack|KeepAlive),handle_timeout; bound=sender after EOF; one step: ACK(EOF) | timeout | keep-alive (may be inconclusive: the NAK arm of process_pdu is executed on garbage); stubs=S1,S2,S3,S6
-th!(#[kani::stub(<std::hash::DefaultHasher as std::hash::Hasher>::finish, crate::c07::hasher_finish_stub)] c03_t_send_after_eof_pdus, 5, { send_step(false, true) });
+th!(#[kani::stub(<std::hash::DefaultHasher as std::hash::Hasher>::finish, crate::c07::hasher_finish_stub)] c03_x_send_after_eof_pdus, 5, { send_step(false, true) });
 //# funcs=SendTransaction::process_pdu(Ack),handle_timeout; bound=cancelled sender after EOF(cancel); one step: ACK(EOF) | timeout | keep-alive (may be inconclusive); stubs=S1,S2,S3,S6
-th!(#[kani::stub(<std::hash::DefaultHasher as std::hash::Hasher>::finish, crate::c07::hasher_finish_stub)] c03_t_send_after_cancel_eof_pdus, 5, { send_step(true, true) });
+th!(#[kani::stub(<std::hash::DefaultHasher as std::hash::Hasher>::finish, crate::c07::hasher_finish_stub)] c03_x_send_after_cancel_eof_pdus, 5, { send_step(true, true) });
 
 //# funcs=SendTransaction::process_pdu(Finished),send_pdu(Finished),send_ack; bound=sender receives Finished in SendEof or Cancelled, then sends the ACK: terminated; stubs=S1,S2,S3
-th!(#[kani::stub(<std::hash::DefaultHasher as std::hash::Hasher>::finish, crate::c07::hasher_finish_stub)] c03_t_send_finished_terminates, 5, {
+th!(#[kani::stub(<std::hash::DefaultHasher as std::hash::Hasher>::finish, crate::c07::hasher_finish_stub)] c03_x_send_finished_terminates, 5, {
     let ch = chans();
     let mut t = sender_after_eof(kani::any(), &ch);
     let fin = Finished { condition: any_condition(), delivery_code: DeliveryCode::Complete, file_status: FileStatusCode::Unreported, filestore_response: vec![], fault_location: None };
@@ -191,7 +191,7 @@ th!(c03_q_recv_after_finished, 10, { recv_step(false) });
 th!(c03_q_recv_after_cancel_finished, 10, { recv_step(true) });
 
 //# funcs=RecvTransaction::new,process_pdu(EoF|FileData),handle_timeout,until_timeout; bound=fresh receiver (real constructor), one PDU (EOF for an n-byte file, or data), then a timeout tick at +0..12 s; stubs=S1,S2,S3,S5
-th!(c03_t_recv_data_phase, 10, {
+th!(c03_x_recv_data_phase, 10, {
     let ch = chans();
     link_libc();
     verif::set_now(Duration::from_secs(NOW));
